@@ -115,7 +115,7 @@ Definition check (c : sexp) : sexp :=
                 map_opt dec_run rs, as_list_of as_N ls with
           | Some F, Some Sc, Some D, Some (r0 :: runs), Some lines =>
               (* the hypotheses the theorems make about schemas must hold of every generated schema *)
-              if negb (schema_ok Sc && schema_args_ok Sc && schema_impls_ok Sc && schema_defaults_ok Sc && schema_ifaces_ok Sc) then v_bad "schema-hypotheses-do-not-hold" else
+              if negb (schema_ok Sc && schema_args_ok Sc && schema_impls_ok Sc && schema_defaults_ok Sc && schema_ifaces_ok Sc && schema_types_wf Sc) then v_bad "schema-hypotheses-do-not-hold" else
               (* and the positional hypotheses of every parsed document *)
               if negb (doc_positions_ok D) then v_bad "positions-not-distinct" else
               (* the code as it is (with the checked-pairs memo) under two map orders, and the same
